@@ -55,7 +55,8 @@ func (o *dpOpener) OpenFile(name string) (dictionary.File, error) {
 	if !ok {
 		return nil, &memOpenError{name}
 	}
-	if o.nopen >= dpDepthCap {
+	// (also: a walk that has opened twenty thousand files is not going to end by itself)
+	if o.nopen >= dpDepthCap || len(o.events) > 20000 {
 		o.exceeded = true
 		return nil, errDpDepth
 	}
